@@ -12,28 +12,35 @@ Definition bs (s : string) : str := List.map N_of_ascii (list_ascii_of_string s)
 
 (* ---- syntax ---------------------------------------------------------------- *)
 (* A word is a concatenation of literal text, "$x" (double-quoted, so exactly
-   one field, no splitting, no globbing) and "$?". *)
-Inductive wpart := WLit (s : str) | WVar (x : str) | WStatus.
-Definition word := list wpart.
+   one field, no splitting, no globbing), "$?" and "$(list)" (double-quoted command
+   substitution). *)
+Inductive wpart :=
+| WLit (s : str)
+| WVar (x : str)
+| WStatus
+| WSubst (l : list stmt)                       (* "$( l )"                       CmdSubst              *)
 
 (* case patterns: a word compared literally (its expansions are quoted, its
-   literal text has no pattern metacharacters: see [safe_str]) or "*" *)
-Inductive pat := PWord (w : word) | PAny.
+   literal text has no pattern metacharacters) or "*" *)
+with pat := PWord (w : list wpart) | PAny
 
-Inductive cmd :=
-| CAssign (x : str) (w : word)                 (* x=w                            CallExpr without args *)
-| CCall (w : word) (ws : list word)            (* w ws...                        CallExpr              *)
+with cmd :=
+| CAssign (x : str) (w : list wpart)           (* x=w                            CallExpr without args *)
+| CCall (w : list wpart) (ws : list (list wpart)) (* w ws...                     CallExpr              *)
 | CBlock (ss : list stmt)                      (* { ss; }                        Block                 *)
 | CSub (ss : list stmt)                        (* ( ss )                         Subshell              *)
 | CAnd (x y : stmt)                            (* x && y                         BinaryCmd AndStmt     *)
 | COr (x y : stmt)                             (* x || y                         BinaryCmd OrStmt      *)
+| CPipe (x y : stmt)                           (* x | y                          BinaryCmd Pipe        *)
 | CIf (c t : list stmt) (e : option cmd)       (* if c; then t; [else-part] fi   IfClause; else = CIf [] t None *)
 | CWhile (until : bool) (c b : list stmt)      (* while/until c; do b; done      WhileClause           *)
-| CFor (x : str) (items : list word) (b : list stmt)   (* for x in items; do b; done    ForClause/WordIter *)
-| CCase (w : word) (items : list (list pat * list stmt)) (* case w in p|p) ss;; ... esac  CaseClause, ";;" only *)
+| CFor (x : str) (items : list (list wpart)) (b : list stmt)   (* for x in items; do b; done    ForClause/WordIter *)
+| CCase (w : list wpart) (items : list (list pat * list stmt)) (* case w in p|p) ss;; ... esac  CaseClause, ";;" only *)
 | CFunc (name : str) (body : stmt)             (* name() body                    FuncDecl              *)
 with stmt :=
 | Stmt (neg : bool) (c : cmd).                 (* [!] c                          Stmt{Negated, Cmd}    *)
+
+Definition word := list wpart.
 
 Definition prog := list stmt.
 
@@ -98,13 +105,38 @@ Definition itoa_u8 (n : N) : str :=
 Definition getvar (vars : list (str * str)) (x : str) : str :=
   match lookup x vars with Some v => v | None => [] end.
 
-Fixpoint expand_word (vars : list (str * str)) (last : N) (w : word) : str :=
+(* the parts that expand without running anything *)
+Definition part_pure (vars : list (str * str)) (last : N) (p : wpart) : option str :=
+  match p with
+  | WLit s => Some s
+  | WVar x => Some (getvar vars x)
+  | WStatus => Some (itoa_u8 last)
+  | WSubst _ => None
+  end.
+
+Definition has_subst (w : word) : bool :=
+  existsb (fun p => match p with WSubst _ => true | _ => false end) w.
+
+Definition pat_has_subst (p : pat) : bool := match p with PWord w => has_subst w | PAny => false end.
+
+(* expansion of a word without command substitutions (case patterns) *)
+Fixpoint expand_pure (vars : list (str * str)) (last : N) (w : word) : str :=
   match w with
   | [] => []
-  | WLit s :: w' => s ++ expand_word vars last w'
-  | WVar x :: w' => getvar vars x ++ expand_word vars last w'
-  | WStatus :: w' => itoa_u8 last ++ expand_word vars last w'
+  | p :: w' =>
+      match part_pure vars last p with Some a => a | None => [] end ++ expand_pure vars last w'
   end.
+
+(* cfg.cmdSubst: NUL bytes removed, then strings.TrimRight(out, "\n") *)
+Fixpoint trim_right_nl (s : str) : str :=
+  match s with
+  | [] => []
+  | c :: s' => match trim_right_nl s' with
+               | [] => if N.eqb c 10 then [] else [c]
+               | t => c :: t
+               end
+  end.
+Definition subst_output (out : str) : str := trim_right_nl (List.filter (fun c => negb (N.eqb c 0)) out).
 
 (* echo: arguments joined by one space, then newline *)
 Fixpoint join_sp (l : list str) : str :=
@@ -127,6 +159,9 @@ Definition n_exit := Eval vm_compute in bs "exit".
 Definition n_set := Eval vm_compute in bs "set".
 Definition n_me := Eval vm_compute in bs "-e".
 Definition n_pe := Eval vm_compute in bs "+e".
+Definition n_mo := Eval vm_compute in bs "-o".
+Definition n_po := Eval vm_compute in bs "+o".
+Definition n_pipefail := Eval vm_compute in bs "pipefail".
 Definition n_dn := Eval vm_compute in bs "-n".
 Definition n_dE := Eval vm_compute in bs "-E".
 Definition is_echo_opt (a : str) : bool :=
